@@ -12,6 +12,7 @@ CONSTANTS
  MaxBad = 3
  MaxRestore = 0
  MaxBadUnit = 2
+ RePut = TRUE
  DocNKeys = 1
  DocShapes = {"p"}
  DocMaxBatch = 1
